@@ -5,6 +5,7 @@ import json, os, subprocess, sys
 V = os.path.dirname(os.path.dirname(os.path.abspath(__file__)))
 REPO = os.environ.get("VERIF_REPO", "/repo")
 only = sys.argv[1:]
+os.environ["VERIF_EVIDENCE_DIR"] = os.path.join(V, "build", "evidence-seeded")   # keep the committed evidence from clean-tree runs
 rows = []
 for d in sorted(os.listdir(os.path.join(V, "seeded"))):
     p = os.path.join(V, "seeded", d)
